@@ -157,7 +157,10 @@ class Report:
             'wall_s': round(time.time() - self.t0, 3),
             'violations': len(violations),
         }
-        if not self.only_key:
+        scratch = os.environ.get('FPDEC_REPO') not in (None, '', '/repo')
+        if scratch:
+            print('(scratch tree %s: evidence file not written)' % os.environ.get('FPDEC_REPO'))
+        if not self.only_key and not scratch:
             with open(os.path.join(EVIDENCE, self.prop + '.json'), 'w') as fh:
                 json.dump(ev, fh, indent=1, default=str)
         print('%s tier=%s obligations=%d discharged=%d known=%d violations=%d wall=%.1fs' % (
